@@ -336,24 +336,36 @@ class _rewrite_captured_vars(ast.NodeTransformer):
         return node
 
     def visit_Lambda(self, node: ast.Lambda) -> Any:
-        self._ignore_stack.append([a.arg for a in node.args.args])
-        v = super().generic_visit(node)
+        # Default values are evaluated outside the lambda: its parameters hide nothing there.
+        l_args = node.args
+        l_args.defaults = [self.visit(d) for d in l_args.defaults]
+        l_args.kw_defaults = [self.visit(d) if d is not None else None for d in l_args.kw_defaults]
+        self._ignore_stack.append(
+            [a.arg for a in l_args.posonlyargs + l_args.args + l_args.kwonlyargs]
+            + ([l_args.vararg.arg] if l_args.vararg else [])
+            + ([l_args.kwarg.arg] if l_args.kwarg else [])
+        )
+        node.body = self.visit(node.body)
         self._ignore_stack.pop()
-        return v
+        return node
 
     def _visit_comprehension(self, node: ast.AST) -> Any:
-        "The loop variables of a comprehension are bound there: they are not captured variables"
+        """The loop variables of a comprehension are bound there: they are not captured
+        variables (but the first iterable is evaluated outside the comprehension)."""
+        generators = node.generators  # type: ignore
+        generators[0].iter = self.visit(generators[0].iter)
         self._ignore_stack.append(
-            [
-                n.id
-                for g in node.generators  # type: ignore
-                for n in ast.walk(g.target)
-                if isinstance(n, ast.Name)
-            ]
+            [n.id for g in generators for n in ast.walk(g.target) if isinstance(n, ast.Name)]
         )
-        v = super().generic_visit(node)
+        for i, g in enumerate(generators):
+            if i > 0:
+                g.iter = self.visit(g.iter)
+            g.ifs = [self.visit(c) for c in g.ifs]
+        for f in ("elt", "key", "value"):
+            if hasattr(node, f):
+                setattr(node, f, self.visit(getattr(node, f)))
         self._ignore_stack.pop()
-        return v
+        return node
 
     visit_ListComp = _visit_comprehension
     visit_GeneratorExp = _visit_comprehension
